@@ -304,6 +304,12 @@ func (w *World) buildReply(ep *Endpoint, pr *ProbeRec, hp *HopPlan, r *Reply) (b
 		case "rstack":
 			seg.Flags = codec.FlagRST | codec.FlagACK
 			seg.Ack = l4.Seq + 1
+		}
+		if (base == "synack" || base == "rst" || base == "rstack") && len(args) > 0 {
+			// further flag bits a real stack may set (ECE 0x40, CWR 0x80, PSH 0x08, URG 0x20)
+			seg.Flags |= uint8(atoi(args[0])) & 0xe8
+		}
+		switch base {
 		case "sack", "plainack":
 			seg.Flags = codec.FlagACK
 			seg.Seq = l4.Ack // what the driver acknowledged = server's next sequence
@@ -378,10 +384,44 @@ func (w *World) buildReply(ep *Endpoint, pr *ProbeRec, hp *HopPlan, r *Reply) (b
 	if !ok {
 		return nil, false
 	}
+	if r.Var != 0 {
+		b = varyOuter(b, r.Var)
+	}
 	if r.Garbage != "" {
 		b = applyGarbage(b, r.Garbage)
 	}
 	return b, true
+}
+
+// varyOuter rewrites outer-header fields no matcher may depend on.
+func varyOuter(b []byte, v uint32) []byte {
+	if len(b) < 20 {
+		return b
+	}
+	switch b[0] >> 4 {
+	case 4:
+		ihl := int(b[0]&0x0f) * 4
+		if ihl < 20 || ihl > len(b) {
+			return b
+		}
+		b[1] = byte(v)
+		binary.BigEndian.PutUint16(b[4:6], uint16(v>>8))
+		if v&(1<<27) != 0 {
+			b[6] ^= 0x40 // DF
+		}
+		b[8] = byte(1 + (v>>24)%255)
+		b[10], b[11] = 0, 0
+		binary.BigEndian.PutUint16(b[10:12], codec.Checksum(b[:ihl], 0))
+	case 6:
+		if len(b) < 40 {
+			return b
+		}
+		w := binary.BigEndian.Uint32(b[0:4])
+		w = w&0xf0000000 | v&0x0fffffff
+		binary.BigEndian.PutUint32(b[0:4], w)
+		b[7] = byte(1 + (v>>24)%255)
+	}
+	return b
 }
 
 func nz(k int) int {
